@@ -201,6 +201,9 @@ def shapes_for(trait, tier, rnd):
         out.append(Shape("debug-ignore-first", [("T", ["#[debug(ignore)]"], {"Debug": False}), ("Option<U>", [], {})]))
         out.append(Shape("debug-ignore-last", [("Option<T>", [], {}), ("U", ["#[debug(ignore)]"], {"Debug": False})]))
         out.append(Shape("debug-transparent", [("T", [], {"Debug": False}), ("Option<U>", ["#[debug(transparent)]"], {})]))
+        # the same inside enum variants (each variant has its own field loop in the builder)
+        out.append(Shape("debug-enum-ignore", [("T", ["#[debug(ignore)]"], {"Debug": False}), ("u8", [], {}), ("Option<U>", [], {})], variants=[("A", "tuple", [0, 1]), ("B", "named", [2]), ("C", "unit", [])]))
+        out.append(Shape("debug-enum-transparent", [("T", [], {"Debug": False}), ("Option<U>", ["#[debug(transparent)]"], {}), ("U", [], {})], variants=[("A", "named", [0, 1]), ("B", "tuple", [2])]))
     if trait == "Default":
         out.append(Shape("default-value-first", [("Option<T>", ["#[default(None)]"], {"Default": False}), ("U", [], {})]))
         out.append(Shape("default-value-last", [("T", [], {}), ("std::vec::Vec<U>", ["#[default(std::vec::Vec::new())]"], {"Default": False})]))
@@ -223,6 +226,7 @@ def shapes_for(trait, tier, rnd):
             ia = "#[%s(ignore)]" % a
             out.append(Shape("cmp-ignore-%s-first" % a, [("T", [ia], rule), ("Option<U>", [], {})]))
             out.append(Shape("cmp-ignore-%s-last" % a, [("Option<T>", [], {}), ("U", [ia], rule)]))
+            out.append(Shape("cmp-enum-ignore-%s" % a, [("T", [ia], rule), ("Option<U>", [], {}), ("u8", [], {})], variants=[("A", "tuple", [0, 1]), ("B", "named", [2]), ("C", "unit", [])]))
         for a in cmpcfg.ATTRS:
             if not all(a in cmpcfg.PREC[t] for t in fam):
                 continue  # a key that does not reach every derived trait of the family leaves one of them without comparator: refused (A.4)
